@@ -6,8 +6,8 @@
    published is the publish model (Props/C03.v); that the queued files are the
    selected/parsed ones is C09/C10.  The implementation-side fsck oracle checks
    the end-to-end statement on every run. *)
-From AM.Model Require Import Base Download Pipeline Stage Converge RepoRun.
-From AM.Lemmas Require Import DownloadLemmas PipelineLemmas StageRunLemmas StageComplete ConvergeLemmas RepoComplete.
+From AM.Model Require Import Base Path Download Pipeline Stage Converge RepoRun Deb822 PoolQueue Unpack.
+From AM.Lemmas Require Import DownloadLemmas PipelineLemmas StageRunLemmas StageComplete ConvergeLemmas RepoComplete UnpackLemmas UnpackExamples.
 Open Scope string_scope.
 Open Scope list_scope.
 
@@ -103,3 +103,42 @@ Theorem successful_repository_run_is_complete :
   (forall p, sizes pool p = declared (poolq view) p).
 Proof. exact successful_repo_run_complete_lemma. Qed.
 Print Assumptions successful_repository_run_is_complete.
+
+(* ---------------------------------------------------------------------------
+   Which stored file the index parsers read (Model/Unpack.v): after the metadata stage skel is cleaned down
+   to the paths of the variants obtained in THIS run, and the parser unpacks the first of
+   <index>.xz/.gz/.bz2 that exists.  For ANY upstream behaviour and ANY previous skel: the file that is
+   parsed lies among the paths of a variant some queued file obtained in this run
+   ([parsed_index_was_obtained_in_this_run]); and when the names <index><suffix> belong to one queued file
+   alone, it is a path of the very variant that file was obtained as
+   ([parsed_index_is_of_the_obtained_variant]) - a leftover higher-priority variant of an earlier run is
+   never what the pool queue is read from. *)
+Theorem parsed_index_was_obtained_in_this_run :
+  forall metaq u skel b p,
+  let '(rs, skel') := run_stage false metaq u skel in
+  unpack_source (skel_clean (staged_view metaq rs skel') skel') b = Some p ->
+  exists f r vi v, In (f, r) (combine metaq rs) /\ obtained_variant r = Some vi /\
+                   nth_error (variants f) vi = Some v /\ In p (vpaths v) /\ present skel' p = true.
+Proof. exact parsed_file_was_obtained. Qed.
+Print Assumptions parsed_index_was_obtained_in_this_run.
+
+Theorem parsed_index_is_of_the_obtained_variant :
+  forall metaq u skel b p f r vi v,
+  disjoint_files metaq ->
+  (forall g q, In g metaq -> In q (all_paths g) -> (q = b \/ exists s, In s unpack_suffixes /\ q = b +++ s) -> g = f) ->
+  let '(rs, skel') := run_stage false metaq u skel in
+  In (f, r) (combine metaq rs) -> obtained_variant r = Some vi -> nth_error (variants f) vi = Some v ->
+  unpack_source (skel_clean (staged_view metaq rs skel') skel') b = Some p ->
+  In p (vpaths v).
+Proof. exact parsed_file_is_of_obtained_variant. Qed.
+Print Assumptions parsed_index_is_of_the_obtained_variant.
+
+Example stale_higher_priority_variant_is_not_parsed :
+  match repo_run_parsed [x_pkg; x_src] ["d/Sources"] ["d/Packages"] x_read x_u_gz x_stale_skel x_stale_mirror with
+  | Some (view, q, pool) =>
+      map fst view = ["d/Packages.gz"; "d/Sources.xz"] /\
+      queue_obs q = [("pool/a.deb", 7%N, false); ("pool/b.dsc", 5%N, false); ("pool/a.deb", 7%N, false)] /\
+      map (sizes pool) ["pool/a.deb"; "pool/b.dsc"; "pool/old.deb"] = [Some 7%N; Some 5%N; None]
+  | None => False
+  end.
+Proof. exact stale_variant_not_parsed_example. Qed.
